@@ -192,6 +192,27 @@ def gen_sessions(rng, infra, now, period, distinct_keys=False, user_bounds=True,
     return sess
 
 
+def gen_fixed_est(rng, infra, sess):
+    """a NON-SimpleRampdown estimator: fixed bounds, with missing entries, bounds above the EVSE maximum (a 48 A on-board
+    charger on a 32 A EVSE), zero bounds and entries for foreign session ids.  In the model it is the store of a rampdown
+    estimator with no history (a missing entry then defaults to the EVSE maximum, which is what min(max_pilot, +inf) gives)"""
+    store = {}
+    for s in sess:
+        mp = infra["maxp"][s["st"]]
+        t = rng.random()
+        if t < 0.3:
+            continue                                       # no bound for this session
+        elif t < 0.55:
+            store[s["sid"]] = float(rng.choice([48.0, mp + 16, mp * 1.5, 80.0]))
+        elif t < 0.7:
+            store[s["sid"]] = 0.0
+        else:
+            store[s["sid"]] = float(round(rng.uniform(0, mp), 2))
+    for _ in range(rng.choice([0, 1, 2])):
+        store[900 + rng.randint(0, 50)] = float(rng.choice([5.0, 64.0, 0.0]))      # foreign ids
+    return dict(up_thr=1.0, down_thr=1.0, up_inc=1.0, store=store, prev_pilot={}, prev_rate={}, custom=True)
+
+
 def gen_ramp(rng, infra, sess):
     if rng.random() < 0.6:
         thr = (1.0, 1.0, 1.0)
@@ -246,9 +267,11 @@ def gen_scenario(rng, tier, algo=None, sort=None, est=None, unint=None, inc=None
     scn = dict(infra=infra, period=period, now=now, sessions=sess,
                algo=algo or rng.choice(["greedy", "rr"]),
                sort=sort or rng.choice(SORTS),
-               est=gen_ramp(rng, infra, sess) if est_on else None,
+               est=(gen_fixed_est(rng, infra, sess) if rng.random() < 0.35 else gen_ramp(rng, infra, sess)) if est_on else None,
                unint=(rng.random() < 0.5) if unint is None else unint,
                inc=inc if inc is not None else rng.choice([0.1, 0.5, 1.0, 3.0, 5.0, 7.0, 0.3, 2.5]))
+    if rng.random() < 0.5:
+        scn["max_recompute"] = rng.choice([None, 1, 2, 3, 5])      # the algorithm's public attribute
     # identifiers whose sorted order differs from registration order / falsy / numeric-looking; value types
     if rng.random() < 0.4:
         infra["names"] = make_names(rng.choice(NAME_STYLES), infra["N"])
@@ -364,13 +387,31 @@ def sid_of(name):
     return int(m.group(1))
 
 
+def fixed_estimator(bounds):
+    """an estimator other than SimpleRampdown: UpperBoundEstimatorBase.get_maximum_rates returns a fixed
+    {session_id: bound} (entries may be missing, above the EVSE maximum, zero, or for foreign sessions)"""
+    alg = _algos()
+
+    class FixedEstimator(alg.UpperBoundEstimatorBase):
+        def __init__(self, b):
+            super().__init__()
+            self.bounds = dict(b)
+
+        def get_maximum_rates(self, sessions):
+            return dict(self.bounds)
+    return FixedEstimator(bounds)
+
+
 def make_algo(scn):
     alg = _algos()
     est = None
     if scn["est"] is not None:
         e = scn["est"]
-        est = alg.SimpleRampdown(up_threshold=e["up_thr"], down_threshold=e["down_thr"], up_increment=e["up_inc"])
-        est.upper_bounds = {session_name(k, sstyle(scn)): v for k, v in e["store"].items()}
+        if e.get("custom"):
+            est = fixed_estimator({session_name(k, sstyle(scn)): v for k, v in e["store"].items()})
+        else:
+            est = alg.SimpleRampdown(up_threshold=e["up_thr"], down_threshold=e["down_thr"], up_increment=e["up_inc"])
+            est.upper_bounds = {session_name(k, sstyle(scn)): v for k, v in e["store"].items()}
     kw = dict(estimate_max_rate=est is not None, max_rate_estimator=est, uninterrupted_charging=scn["unint"])
     if scn["algo"] == "rr":
         a = alg.RoundRobin(sort_fn(scn["sort"]), continuous_inc=scn["inc"], **kw)
@@ -378,6 +419,8 @@ def make_algo(scn):
         a = alg.SortedSchedulingAlgo(sort_fn(scn["sort"]), **kw)
     else:
         a = alg.UncontrolledCharging()
+    if "max_recompute" in scn:
+        a.max_recompute = scn["max_recompute"]         # public attribute: None, 1, 2, 3, 5 ...
     return a, est
 
 
@@ -462,14 +505,17 @@ class Observed:
                         continue
                     sched[index[k_]] = float(v[0])
             else:
-                sched = []
+                sched, rows = [], []
                 if len(raw) != N or any(k_ not in index for k_ in raw):
                     shape_ok = False
                 for i in range(N):
                     v = raw.get(names[i], [float("nan")])
-                    if not (isinstance(v, list) and len(v) == 1):
+                    if not isinstance(v, list) or len(v) == 0:
                         shape_ok = False
+                        v = [float("nan")]
+                    rows.append([float(x) for x in v])         # the WHOLE emitted schedule of the station
                     sched.append(float(v[0]))
+                rec["rows"] = rows
         order = rec.get("sort_out")
         als = rec.get("alg_sessions")
         if als is not None and rec.get("seen") is not None:
@@ -480,10 +526,10 @@ class Observed:
                 if sorted(walked) == sorted(sts):
                     order = [by_st[st] for st in walked]       # the order actually walked
         store = None
-        if self.est is not None:
+        if self.est is not None and hasattr(self.est, "upper_bounds"):
             store = {sid_of(k): float(v) for k, v in self.est.upper_bounds.items()}
-        return dict(err=err, sched=sched, pre=rec.get("pre"), order=order, store=store, shape_ok=shape_ok,
-                    rr_trace=rec.get("trace"))
+        return dict(err=err, sched=sched, rows=rec.get("rows"), pre=rec.get("pre"), order=order, store=store,
+                    shape_ok=shape_ok, rr_trace=rec.get("trace"))
 
 
 def _freeze(o):
@@ -516,7 +562,7 @@ class StubDriver:
     def call(self, scn, reregister=False, direct=False, vandalise=False):
         from acnportal.algorithms.tests.testing_interface import TestingInterface
         if self.calls > 0:
-            if scn.get("est") is not None and self.est is not None:
+            if scn.get("est") is not None and self.est is not None and hasattr(self.est, "upper_bounds"):
                 # the model is fed the estimator's TRUE state at this call
                 scn["est"]["store"] = {sid_of(k): float(v) for k, v in self.est.upper_bounds.items()}
             if reregister:
@@ -989,10 +1035,13 @@ def case_coq(scn, impl):
     pre_s = coq_list(["(%s, %s, %s)" % (zl(p[0]), qlist([clean(x) for x in p[1]]), qlist([clean(x) for x in p[2]]))
                       for p in pre])
     return ("{| k_infra := %s;\n   k_cfg := %s;\n   k_sessions := %s;\n   o_err := %s; o_sched := %s;\n"
+            "   o_rows := %s; o_has_store := %s;\n"
             "   o_pre := %s; o_order := %s; o_store := %s |}") % (
         infra_coq(scn["infra"]), cfg_coq(scn),
         coq_list([session_coq(s, scn["now"]) for s in scn["sessions"]]),
         coq_opt(impl["err"], coq_str), qlist([clean(x) for x in sched]),
+        coq_list([qlist([clean(x) for x in r]) for r in (impl.get("rows") or [[x] for x in sched])]),
+        coq_bool(impl["store"] is not None or scn["est"] is None),
         pre_s, coq_list([zl(k) for k in (impl["order"] or [])]),
         zq_list(impl["store"] or {}))
 
@@ -1206,7 +1255,7 @@ def advance(scn, impl, rng=None):
                 s["maxs"] = s["maxs"][:rt] + [s["maxs"][-1]] * (rt - len(s["maxs"]))
             kept.append(s)
     nxt["sessions"] = kept
-    if nxt.get("est") is not None:
+    if nxt.get("est") is not None and not nxt["est"].get("custom"):
         nxt["est"]["prev_pilot"] = pp
         nxt["est"]["prev_rate"] = pr
     return nxt
@@ -1217,7 +1266,10 @@ def run_sequence(rng, tier, steps=6, algo=None, sort=None):
     if rng.random() < 0.65:
         scn = gen_flip_scenario(rng, tier, algo=algo, sort=sort)
         if rng.random() < 0.3:
-            scn["est"] = gen_ramp(rng, scn["infra"], scn["sessions"])
+            scn["est"] = gen_ramp(rng, scn["infra"], scn["sessions"]) if rng.random() < 0.6 else \
+                gen_fixed_est(rng, scn["infra"], scn["sessions"])
+        if rng.random() < 0.4:
+            scn["max_recompute"] = rng.choice([None, 2, 3, 5])
     else:
         scn = gen_scenario(rng, tier, algo=algo or rng.choice(["greedy", "rr"]), sort=sort, user_bounds=False, plenty=0.8)
         if scn["inc"] == 0.1:
